@@ -58,7 +58,7 @@ def value_ids(objs):
             v = getattr(obj, a, None)
             if isinstance(v, dict):
                 for k, x in v.items():
-                    out[(name, a, getattr(k, "name", str(k)))] = id(x)
+                    out[(name, a, S.key_of(k) if hasattr(k, "name") else str(k))] = id(x)
             out[(name, a)] = id(v)
     return out
 
